@@ -76,8 +76,6 @@ show('unmasked-rpad-and-clip-axis0-no-clip', 'ak.pad_none(UnmaskedArray([1,2,3])
      lambda: ak.pad_none(A(L.UnmaskedArray(i64(1, 2, 3))), 2, axis=0, clip=True), '[1, 2]')
 show('negaxis-record-not-resolved', "ak.fill_none([{x:[1,None]}], 0, axis=-1)   (negative axis stays negative at a record with list fields)",
      lambda: ak.fill_none(A([{'x': [1, None]}]), 0, axis=-1), '[{x:[1,0]}]')
-show('argminmax-nonlocal-positions (option leaves)', 'ak.argmax([[6,0],[2,None,8,7],[9,None]], axis=0)',
-     lambda: ak.argmax(A([[6, 0], [2, None, 8, 7], [9, None]]), axis=0), '[2, 0, 1, 1]')
 show('broadcast-all-same-offsets-regular-zero-length', 'ak.zip([RegularArray(size 2, length 0, content 1 long), ListArray(length 0)], depth_limit=3)',
      lambda: ak.zip([A(L.RegularArray(i64(2), 2)), A(L.ListArray64(ix(), ix(), i64()))], depth_limit=3),
      'ValueError (depth_limit is deeper than the arrays), as for non-empty arrays')
